@@ -119,6 +119,7 @@ func cmdCheck(repo, prop, tier string) int {
 		return broken("contracts: %v", err)
 	}
 	e.contracts = cs
+	e.resolveRenamed()
 	if e.solver, err = newSolver(); err != nil {
 		return broken("solver: %v", err)
 	}
